@@ -925,8 +925,13 @@ def d_cbor_enc(a):
 
 
 def cbor_empty_array(fn, args, record):
-    """Finding C11-CBOR-EMPTY: the round trip of the EMPTY array only (direct check on Encode([]))."""
-    return fn == "cbor_encode" and record.get("kind") == "direct" and list(args[0]) == []
+    """Finding C11-CBOR-EMPTY: only the empty array -- the direct round-trip check on Encode([]) and the model/
+    implementation divergence on Decode(9fff) (model: [], implementation: ValueError 'Invalid length (2)')."""
+    if fn == "cbor_encode" and record.get("kind") == "direct":
+        return list(args[0]) == []
+    if fn == "cbor_decode" and record.get("kind") == "divergence":
+        return bytes(args[0]) == b"\x9f\xff" and record.get("impl") == {"err": "ValueError"}
+    return False
 
 
 def cbor_empty_array_replay():
